@@ -149,6 +149,8 @@ pub fn run(r: &mut R) {
         binds = ["p%d" % i for i in range(n)]
         for sattr, kinds in (("#[into(owned, ref, ref_mut)]", "orm"), ("#[into(ref)]", "r"), ("#[into(ref_mut, owned)]", "om"),
                              ("#[into(ref(%s), owned(%s))]" % (ft, hT), "rH"),
+                             # one kind given both bare (the fields' own types) and with a type list, in either order
+                             ("#[into(owned(%s), owned)]" % hT, "oH"), ("#[into(owned, owned(%s))]" % hT, "oH"), ("#[into(ref, owned(%s), owned)]" % hT, "roH"),
                              # the same selections spread over repeated attributes
                              ("#[into(owned)] #[into(ref)]", "or"), ("#[into(owned)] #[into(ref_mut)]", "om"), ("#[into(ref)] #[into(ref_mut)]", "rm"),
                              ("#[into(ref_mut)] #[into(ref)]", "rm"), ("#[into(ref)] #[into(owned)]", "or"), ("#[into(owned)] #[into(ref)] #[into(ref_mut)]", "orm")):
